@@ -4,6 +4,13 @@ scratch copy of /repo and records which checks fire with which keys."""
 import os, sys, json, subprocess, glob, re, tempfile, shutil
 VERIF = os.path.dirname(os.path.dirname(os.path.abspath(__file__)))
 NEEDS = {
+ 'C01-reindex-progress-reset': 'a second index overflow before the first old index table was fully migrated (two tables queued), then the walk of the second table',
+ 'C05-btree-log-lock-per-fetch': 'a reader thread walking a btree column racing the log worker publishing a record that splits/merges/frees nodes',
+ 'C14-init-before-replay': 'same change as C10-init-before-replay found independently for C14: crash with a flushed, un-enacted tree commit; further tree inserts/dereferences after recovery',
+ 'C16-any-io-error-is-eof': 'an I/O fault exactly on one of the two header reads at a record boundary of the enact step (transient or confined to the commit worker)',
+ 'C17-prefix-without-separator': 'a database with more than 100 columns, data in a column >= 100, an administration call on column 10..25',
+ 'C18-lockfile-guard': 'handle A alive, a failed (correctly refused) open B, then a third open C while A is still alive',
+ 'C20-copy-before-source-open': 'a source database that was not shut down cleanly (flushed, un-applied log records touching a column that is copied unchanged); overwrite == false',
  'C01-cleanid': 'a reindex (or replay) earlier in the session so that log record ids run ahead of commit ids; two queued commits to the same key; a read after the first was logged',
  'C05-cleanid': 'same change as C01-cleanid found independently for C05: log record ids ahead of commit ids, overlapping queued commits, a read between stage steps',
  'C02-logorder': 'two non-empty logs at the crash instant, the lower-numbered one recycled from the pool after a younger one was written; crash; reopen',
@@ -21,6 +28,13 @@ NEEDS = {
  'C07-skip-set-if-present': 'three queued commits Set(k) / Dereference(k) to zero / Set(k); read after the first two were processed',
 }
 ORIGIN = {
+ 'C01-reindex-progress-reset': 'rule added after this seed exposed the gap (progress counter reset whenever the queue front changes); found for C01, detected by C09',
+ 'C05-btree-log-lock-per-fetch': 'rule added after this seed exposed the gap (log-overlay read guard held across the btree walk)',
+ 'C14-init-before-replay': 'same rule as C10-init-before-replay (existed when this seed arrived); obligation also attached to C14 afterwards',
+ 'C16-any-io-error-is-eof': 'rule added after this seed exposed the gap (a log is retired only on UnexpectedEof)',
+ 'C17-prefix-without-separator': 'clause was in the design and implemented before the seed (predicate is a prefix of the name format incl. separator), but keyed on the is_file_name functions; the seed removed them, so the first report was an anchor failure; rule generalised to the formats reachable from drop_files/deplace_column',
+ 'C18-lockfile-guard': 'remove_file confinement (C12.5d) existed and fired; the C18 rules were keyed on direct call sites and reported anchor failures; generalised afterwards (lifted lock site, failed-lock path changes nothing incl. drop glue)',
+ 'C20-copy-before-source-open': 'rule added after this seed exposed the gap (raw file copy only after the source was opened)',
  'C01-cleanid': 'rule added after this seed exposed the gap (the design had the hand-over order but not the provenance of the id passed to clean_overlay)',
  'C05-cleanid': 'same rule as C01-cleanid',
  'C02-logorder': 'clause was in the design before seeding (C13.5 replay in first-record-id order); implemented afterwards',
